@@ -158,12 +158,12 @@ Lemma rawop_eta : forall r a b c d, r_op r = a -> r_path r = b -> r_from r = c -
 Proof. intros [o p f v] a b c d; simpl; intros; subst; reflexivity. Qed.
 
 Theorem create_patch_grammar : forall p, Forall (fun n => Forall key_ok (n_ch n)) (n_ch p) ->
-  match create_patch p with
+  match create_patch_prefix p with
   | inr ops => Forall opobj_ok (n_ch p) /\ ops = map decoded (n_ch p)
   | inl e => ~ Forall opobj_ok (n_ch p) /\ (e = RcPatchInvalid \/ e = RcBadOp)
   end.
 Proof.
-  intros p K. unfold create_patch.
+  intros p K. unfold create_patch_prefix.
   destruct (forallb (fun n => ty_eqb (n_ty n) TObj) (n_ch p)) eqn:FB.
   - assert (TO : Forall (fun n => n_ty n = TObj) (n_ch p)).
     { apply Forall_forall. intros n I. rewrite forallb_forall in FB. apply ty_eqb_eq. apply FB. exact I. }
@@ -251,9 +251,9 @@ Proof.
 Qed.
 
 Theorem create_patch_exact_on_canonical : forall p,
-  Forall (fun n => n_ty n = TObj /\ Forall canon_member (n_ch n)) (n_ch p) -> create_patch p = decode_ops_exact (n_ch p).
+  Forall (fun n => n_ty n = TObj /\ Forall canon_member (n_ch n)) (n_ch p) -> create_patch_prefix p = decode_ops_exact (n_ch p).
 Proof.
-  intros p C. unfold create_patch.
+  intros p C. unfold create_patch_prefix.
   assert (FB : forallb (fun n => ty_eqb (n_ty n) TObj) (n_ch p) = true).
   { apply forallb_forall. intros n I. rewrite Forall_forall in C. destruct (C n I) as [T _]. apply ty_eqb_eq. exact T. }
   rewrite FB. clear FB. induction (n_ch p) as [|n r IH]; [reflexivity|].
@@ -264,7 +264,7 @@ Qed.
 
 (* for patch documents as the parsers build them (klidx_inv) *)
 Theorem create_patch_grammar_inv : forall p, inv p ->
-  match create_patch p with
+  match create_patch_prefix p with
   | inr ops => Forall opobj_ok (n_ch p) /\ ops = map decoded (n_ch p)
   | inl e => ~ Forall opobj_ok (n_ch p) /\ (e = RcPatchInvalid \/ e = RcBadOp)
   end.
@@ -273,7 +273,25 @@ Proof.
   - apply create_patch_grammar. apply inv_unfold in H. destruct H as [Hg _].
     apply Forall_forall. intros n I. rewrite forallb_forall in FB. specialize (FB n I). apply ty_eqb_eq in FB.
     rewrite Forall_forall in Hg. destruct (Hg n I) as [In _]. apply inv_unfold in In. destruct In as [_ It]. rewrite FB in It. exact It.
-  - unfold create_patch. rewrite FB. split; [|left; reflexivity]. intro F.
+  - unfold create_patch_prefix. rewrite FB. split; [|left; reflexivity]. intro F.
     assert (forallb (fun n => ty_eqb (n_ty n) TObj) (n_ch p) = true); [|congruence].
     apply forallb_forall. intros n I. rewrite Forall_forall in F. destruct (F n I) as [T _]. apply ty_eqb_eq. exact T.
+Qed.
+
+(* ------------------------------------------------------------------ the decoder since 63ac2d6: exact names *)
+Lemma decode_ops_x_exact : forall l, Forall (fun n => n_ty n = TObj) l -> decode_ops_x l = decode_ops_exact l.
+Proof.
+  induction l as [|n r IH]; intro F; [reflexivity|]. inversion F as [|? ? T Fr]; subst.
+  cbn [decode_ops_x decode_ops_exact]. rewrite T. destruct (decode_members_exact (n_ch n) empty_rawop); [reflexivity|].
+  rewrite (IH Fr). reflexivity.
+Qed.
+
+(* for EVERY patch document: an element that is no object makes the whole document JBL_ERROR_PATCH_INVALID (checked before anything
+   is decoded); otherwise the decoder is the exact rfc6902 reading - "op", "path", "from", "value" by their full names, every other
+   member ignored, operation names exact *)
+Theorem create_patch_exact : forall p,
+  create_patch p = if forallb (fun n => ty_eqb (n_ty n) TObj) (n_ch p) then decode_ops_exact (n_ch p) else inl RcPatchInvalid.
+Proof.
+  intro p. unfold create_patch, create_patch_v. destruct (forallb (fun n => ty_eqb (n_ty n) TObj) (n_ch p)) eqn:FB; [|reflexivity].
+  apply decode_ops_x_exact. apply Forall_forall. intros n I. rewrite forallb_forall in FB. apply ty_eqb_eq. apply FB. exact I.
 Qed.
